@@ -47,6 +47,8 @@ type Result struct {
 	Sets     map[string][]string    `json:"sets,omitempty"` // named sets of distinct things observed (unioned by the orchestrator)
 	Sample   map[string]interface{} `json:"sample,omitempty"`
 	Trace    []string               `json:"trace,omitempty"` // tail of the event log for the replay file
+	// Offline holds requests for the property's offline oracle (run by the orchestrator over all cases).
+	Offline []interface{} `json:"offline,omitempty"`
 }
 
 // Violate appends a violation.
